@@ -192,4 +192,468 @@ theorem spline_roundtrip (hI : IntRoundTrip) (hF : FloatRoundTrip) (u : Option S
     simp only [loadSpline, he, hrt, bind, Except.bind, pure, Except.pure]
     simp [mkEl, XmlNode.attr?, XmlNode.attrs, boolAttr, isTrueWord_pyBool, hI s.order, ho', sortPoints_of_sorted _ hs]
 
+/-! ### lists of comparisons, discrete lookups, context calibrators -/
+
+/-- The stronger form of the float hypothesis: the re-read value is the very same finite float. -/
+def FValRoundTrip : Prop := ∀ (q : Rat) (s : String), showFloat (.fin q) = .ok s → readFloat s = .ok (.fin q)
+
+theorem FValRoundTrip.toFloat (h : FValRoundTrip) : FloatRoundTrip := by
+  intro q s hs
+  simp [readRat, h q s hs, bind, Except.bind, pure, Except.pure]
+
+theorem comparisons_roundtrip (u : Option String) (cs : List Comparison)
+    (hop : ∀ c ∈ cs, (lookupOp c.op).isSome = true) :
+    (cs.map (writeComparison u)).mapM loadComparison = .ok cs := by
+  induction cs with
+  | nil => rfl
+  | cons c cs ih =>
+    simp only [List.map_cons, List.mapM_cons, bind, Except.bind, pure, Except.pure,
+      comparison_roundtrip u c (hop c (by simp)), ih (fun c' h => hop c' (by simp [h]))]
+
+theorem writeComparison_isElem (u : Option String) (c : Comparison) : (writeComparison u c).isElem = true := rfl
+
+theorem matches_comparison (u : Option String) (c : Comparison) :
+    (step "Comparison").matches u (writeComparison u c) = true := by
+  simp [Step.matches, step, writeComparison, mkEl, XmlNode.isElem, XmlNode.tag, XmlNode.ns]
+
+theorem filter_comparisons (u : Option String) (cs : List Comparison) :
+    (cs.map (writeComparison u)).filter ((step "Comparison").matches u) = cs.map (writeComparison u) := by
+  rw [List.filter_eq_self]
+  intro x hx
+  obtain ⟨c, _, rfl⟩ := List.mem_map.mp hx
+  exact matches_comparison u c
+
+/-- A discrete lookup entry (value plus its one or several comparisons) survives write → load. -/
+theorem discrete_lookup_roundtrip (hV : FValRoundTrip) (u : Option String) (d : DiscreteLookup) (q : Rat)
+    (hv : d.value = .flt (.fin q)) (hne : d.criteria ≠ [])
+    (hop : ∀ c ∈ d.criteria, (lookupOp c.op).isSome = true) (x : XmlNode)
+    (hw : writeDiscreteLookup u d = .ok x) : loadDiscreteLookup u x = .ok d := by
+  obtain ⟨crit, value⟩ := d
+  simp only at hv hne hop
+  subst hv
+  simp only [writeDiscreteLookup, showNum, bind, Except.bind, pure, Except.pure] at hw
+  cases hs : showFloat (.fin q) with
+  | error e => simp [hs] at hw
+  | ok vs =>
+    simp only [hs] at hw
+    injection hw with hw; subst hw
+    have hrd := hV q vs hs
+    by_cases hlen : crit.length > 1
+    · simp only [hlen, if_true]
+      have hel : (mkEl u "ComparisonList" [] (crit.map (writeComparison u))).elems = crit.map (writeComparison u) := by
+        simp only [mkEl, XmlNode.elems, XmlNode.kids]
+        rw [List.filter_eq_self]
+        intro x hx
+        obtain ⟨c, _, rfl⟩ := List.mem_map.mp hx
+        rfl
+      have hff : findFirst u [step "ComparisonList"]
+          (mkEl u "DiscreteLookup" [("value", vs)] [mkEl u "ComparisonList" [] (crit.map (writeComparison u))])
+          = some (mkEl u "ComparisonList" [] (crit.map (writeComparison u))) := by
+        simp [findFirst, findAll, mkEl, XmlNode.kids, Step.matches, step, XmlNode.isElem, XmlNode.tag, XmlNode.ns]
+      simp only [loadDiscreteLookup, hff, hel, comparisons_roundtrip u crit hop, bind, Except.bind, pure, Except.pure]
+      simp [mkEl, XmlNode.attr!, XmlNode.attr?, XmlNode.attrs, hrd]
+    · simp only [hlen, if_false]
+      match crit, hne, hlen, hop with
+      | [c], _, _, hop =>
+        have hc := comparison_roundtrip u c (hop c (by simp))
+        have h1 : findFirst u [step "ComparisonList"]
+            (mkEl u "DiscreteLookup" [("value", vs)] ([c].map (writeComparison u))) = none := by
+          simp [findFirst, findAll, mkEl, XmlNode.kids, Step.matches, step, XmlNode.isElem, XmlNode.tag, writeComparison]
+        have h2 : findFirst u [step "Comparison"]
+            (mkEl u "DiscreteLookup" [("value", vs)] ([c].map (writeComparison u))) = some (writeComparison u c) := by
+          simp [findFirst, findAll, mkEl, XmlNode.kids, Step.matches, step, XmlNode.isElem, XmlNode.tag, XmlNode.ns,
+            writeComparison]
+        simp only [loadDiscreteLookup, h1, h2, hc, bind, Except.bind, pure, Except.pure]
+        simp [mkEl, XmlNode.attr!, XmlNode.attr?, XmlNode.attrs, hrd]
+      | [], hne, _, _ => exact absurd rfl hne
+      | _ :: _ :: _, _, hlen, _ => exact absurd (by simp) hlen
+
+/-- What `writeCalibrator` produces is an element whose tag names the calibrator kind. -/
+theorem writeCalibrator_shape (u : Option String) (c : Calibrator) (x : XmlNode) (hw : writeCalibrator u c = .ok x) :
+    ∃ a k, x = .elem u (match c with | .spline _ => "SplineCalibrator" | .poly _ => "PolynomialCalibrator") a none k := by
+  cases c with
+  | spline s =>
+    simp only [writeCalibrator, bind, Except.bind, pure, Except.pure] at hw
+    cases hm : s.points.mapM (writeSplinePoint u) with
+    | error e => simp [hm] at hw
+    | ok pts => simp only [hm] at hw; injection hw with hw; subst hw; exact ⟨_, _, rfl⟩
+  | poly ts =>
+    simp only [writeCalibrator, bind, Except.bind, pure, Except.pure] at hw
+    cases hm : ts.mapM (writeTerm u) with
+    | error e => simp [hm] at hw
+    | ok terms => simp only [hm] at hw; injection hw with hw; subst hw; exact ⟨_, _, rfl⟩
+
+/-- Well-formed calibrators: what the loader itself can produce (sorted points, order ≤ 1, float coefficients). -/
+def CalWF : Calibrator → Prop
+  | .spline s => StrictSorted s.points ∧ s.order ≤ 1
+  | .poly ts => ∀ t ∈ ts, t.isInt = false
+
+/-- A calibrator wrapped in `<wrapper>` (DefaultCalibrator or Calibrator) is found again and re-read unchanged. -/
+theorem wrapped_calibrator_roundtrip (hI : IntRoundTrip) (hF : FloatRoundTrip) (u : Option String) (c : Calibrator)
+    (hc : CalWF c) (x : XmlNode) (hw : writeCalibrator u c = .ok x) (wrapper : String) :
+    (match c with
+     | .spline _ => findFirst u [step wrapper, step "SplineCalibrator"] (mkEl u "P" [] [mkEl u wrapper [] [x]]) = some x
+     | .poly _ => findFirst u [step wrapper, step "SplineCalibrator"] (mkEl u "P" [] [mkEl u wrapper [] [x]]) = none ∧
+                  findFirst u [step wrapper, step "PolynomialCalibrator"] (mkEl u "P" [] [mkEl u wrapper [] [x]]) = some x) ∧
+    (match c with | .spline _ => loadSpline x | .poly _ => loadPoly x) = .ok c := by
+  obtain ⟨a, k, hx⟩ := writeCalibrator_shape u c x hw
+  cases c with
+  | spline s =>
+    refine ⟨?_, spline_roundtrip hI hF u s hc.1 hc.2 x hw⟩
+    subst hx
+    simp [findFirst, findAll, mkEl, XmlNode.kids, Step.matches, step, XmlNode.isElem, XmlNode.tag, XmlNode.ns]
+  | poly ts =>
+    refine ⟨?_, polynomial_roundtrip hI hF u ts hc x hw⟩
+    subst hx
+    simp [findFirst, findAll, mkEl, XmlNode.kids, Step.matches, step, XmlNode.isElem, XmlNode.tag, XmlNode.ns]
+
+/-- The criteria of a context calibrator in the two forms that consist of comparisons. -/
+def CmpCriteria (crit : List Criterion) (cmps : List Comparison) : Prop :=
+  crit = cmps.map Criterion.comparison ∧ cmps ≠ [] ∧ ∀ c ∈ cmps, (lookupOp c.op).isSome = true
+
+theorem writeCriterion_comparisons (u : Option String) (cmps : List Comparison) :
+    (cmps.map Criterion.comparison).map (writeCriterion u) = cmps.map (writeComparison u) := by
+  simp [List.map_map, Function.comp_def, writeCriterion]
+
+theorem flatten_singletons {α β} (f : α → β) (l : List α) :
+    (l.map ((fun x => [x]) ∘ f)).flatten = l.map f := by
+  induction l with
+  | nil => rfl
+  | cons a l ih => simp [ih]
+
+/-- `ContextMatch` with one comparison or a `ComparisonList` of several is read back as the same criteria. -/
+theorem contextmatch_roundtrip (u : Option String) (crit : List Criterion) (cmps : List Comparison)
+    (h : CmpCriteria crit cmps) :
+    ∃ cm, writeContextMatch u crit = .ok cm ∧
+      cm.isElem = true ∧ cm.tag = "ContextMatch" ∧ cm.ns = u ∧ loadMatchCriteria u true cm = .ok crit := by
+  obtain ⟨rfl, hne, hop⟩ := h
+  match cmps, hne, hop with
+  | [c], _, hop =>
+    refine ⟨mkEl u "ContextMatch" [] [writeComparison u c], rfl, rfl, rfl, rfl, ?_⟩
+    have hc := comparison_roundtrip u c (hop c (by simp))
+    have h1 : findFirst u [step "ComparisonList"] (mkEl u "ContextMatch" [] [writeComparison u c]) = none := by
+      simp [findFirst, findAll, mkEl, XmlNode.kids, Step.matches, step, XmlNode.isElem, XmlNode.tag, writeComparison]
+    have h2 : findFirst u [step "Comparison"] (mkEl u "ContextMatch" [] [writeComparison u c]) = some (writeComparison u c) := by
+      simp [findFirst, findAll, mkEl, XmlNode.kids, Step.matches, step, XmlNode.isElem, XmlNode.tag, XmlNode.ns,
+        writeComparison]
+    simp only [loadMatchCriteria, h1, h2, hc, bind, Except.bind, pure, Except.pure, List.map_cons, List.map_nil]
+  | c1 :: c2 :: rest, _, hop =>
+    refine ⟨mkEl u "ContextMatch" [] [mkEl u "ComparisonList" []
+      (((c1 :: c2 :: rest).map Criterion.comparison).map (writeCriterion u))], rfl, rfl, rfl, rfl, ?_⟩
+    rw [writeCriterion_comparisons]
+    have hff : findFirst u [step "ComparisonList"]
+        (mkEl u "ContextMatch" [] [mkEl u "ComparisonList" [] ((c1 :: c2 :: rest).map (writeComparison u))])
+        = some (mkEl u "ComparisonList" [] ((c1 :: c2 :: rest).map (writeComparison u))) := by
+      simp [findFirst, findAll, mkEl, XmlNode.kids, Step.matches, step, XmlNode.isElem, XmlNode.tag, XmlNode.ns]
+    have hfa : findAll u [step "Comparison"] (mkEl u "ComparisonList" [] ((c1 :: c2 :: rest).map (writeComparison u)))
+        = (c1 :: c2 :: rest).map (writeComparison u) := by
+      simp only [findAll, mkEl, XmlNode.kids, filter_comparisons, List.map_map]
+      exact flatten_singletons _ _
+    simp only [loadMatchCriteria, hff, hfa, if_true, comparisons_roundtrip u _ hop, bind, Except.bind, pure, Except.pure]
+
+/-- A context calibrator (comparison criteria plus a calibrator) survives write → load. -/
+theorem context_calibrator_roundtrip (hI : IntRoundTrip) (hF : FloatRoundTrip) (u : Option String)
+    (c : ContextCalibrator) (cmps : List Comparison) (hcrit : CmpCriteria c.criteria cmps) (hcal : CalWF c.calibrator)
+    (x : XmlNode) (hw : writeContextCalibrator u c = .ok x) :
+    loadContextCalibrator u x = .ok c ∧ x.isElem = true := by
+  obtain ⟨crit, cal⟩ := c
+  simp only at hcrit hcal
+  obtain ⟨cm, hcm, hel, htag, hns, hload⟩ := contextmatch_roundtrip u crit cmps hcrit
+  simp only [writeContextCalibrator, bind, Except.bind, hcm] at hw
+  cases hwc : writeCalibrator u cal with
+  | error e => simp [hwc, pure, Except.pure] at hw
+  | ok xc =>
+    simp only [hwc, pure, Except.pure] at hw
+    injection hw with hw; subst hw
+    refine ⟨?_, rfl⟩
+    obtain ⟨a, k, hx⟩ := writeCalibrator_shape u cal xc hwc
+    cases cm with
+    | comment s => simp [XmlNode.isElem] at hel
+    | elem cns ctag cattrs ctext ckids =>
+      simp only [XmlNode.tag] at htag
+      simp only [XmlNode.ns] at hns
+      have hns' := hns.symm
+      subst htag hns'
+      have hfm : findFirst u [step "ContextMatch"]
+          (mkEl u "ContextCalibrator" [] [.elem u "ContextMatch" cattrs ctext ckids, mkEl u "Calibrator" [] [xc]])
+          = some (.elem u "ContextMatch" cattrs ctext ckids) := by
+        simp [findFirst, findAll, mkEl, XmlNode.kids, Step.matches, step, XmlNode.isElem, XmlNode.tag, XmlNode.ns]
+      cases cal with
+      | spline sp =>
+        have hrt := spline_roundtrip hI hF u sp hcal.1 hcal.2 xc hwc
+        subst hx
+        have hfs : findFirst u [step "Calibrator", step "SplineCalibrator"]
+            (mkEl u "ContextCalibrator" [] [.elem u "ContextMatch" cattrs ctext ckids,
+              mkEl u "Calibrator" [] [.elem u "SplineCalibrator" a none k]])
+            = some (.elem u "SplineCalibrator" a none k) := by
+          simp [findFirst, findAll, mkEl, XmlNode.kids, Step.matches, step, XmlNode.isElem, XmlNode.tag, XmlNode.ns]
+        simp only [loadContextCalibrator, hfm, hload, hfs, hrt, bind, Except.bind, pure, Except.pure]
+      | poly ts =>
+        have hrt := polynomial_roundtrip hI hF u ts hcal xc hwc
+        subst hx
+        have hfs : findFirst u [step "Calibrator", step "SplineCalibrator"]
+            (mkEl u "ContextCalibrator" [] [.elem u "ContextMatch" cattrs ctext ckids,
+              mkEl u "Calibrator" [] [.elem u "PolynomialCalibrator" a none k]]) = none := by
+          simp [findFirst, findAll, mkEl, XmlNode.kids, Step.matches, step, XmlNode.isElem, XmlNode.tag, XmlNode.ns]
+        have hfp : findFirst u [step "Calibrator", step "PolynomialCalibrator"]
+            (mkEl u "ContextCalibrator" [] [.elem u "ContextMatch" cattrs ctext ckids,
+              mkEl u "Calibrator" [] [.elem u "PolynomialCalibrator" a none k]])
+            = some (.elem u "PolynomialCalibrator" a none k) := by
+          simp [findFirst, findAll, mkEl, XmlNode.kids, Step.matches, step, XmlNode.isElem, XmlNode.tag, XmlNode.ns]
+        simp only [loadContextCalibrator, hfm, hload, hfs, hfp, hrt, bind, Except.bind, pure, Except.pure]
+
+/-! ### numeric encodings with their calibrators -/
+
+/-- Calibrator sets the theorems cover: comparison criteria in context matches, loader-producible calibrators. -/
+def CalibsWF (c : Calibs) : Prop :=
+  (∀ d, c.default = some d → CalWF d) ∧
+  ∀ x ∈ c.contexts, (∃ cmps, CmpCriteria x.criteria cmps) ∧ CalWF x.calibrator
+
+theorem writeDefaultCal_shape (u : Option String) (dflt : Option Calibrator) (d : List XmlNode)
+    (h : writeDefaultCal u dflt = .ok d) :
+    (dflt = none ∧ d = []) ∨ ∃ c x, dflt = some c ∧ writeCalibrator u c = .ok x ∧ d = [mkEl u "DefaultCalibrator" [] [x]] := by
+  cases dflt with
+  | none => left; simp only [writeDefaultCal] at h; injection h with h; exact ⟨rfl, h.symm⟩
+  | some c =>
+    right
+    simp only [writeDefaultCal] at h
+    cases hc : writeCalibrator u c with
+    | error e => simp [hc] at h
+    | ok x => simp only [hc] at h; injection h with h; exact ⟨c, x, rfl, hc, h.symm⟩
+
+theorem writeContextList_shape (u : Option String) (ctxs : List ContextCalibrator) (cs : List XmlNode)
+    (h : writeContextList u ctxs = .ok cs) :
+    (ctxs = [] ∧ cs = []) ∨ ∃ xs, ctxs ≠ [] ∧ ctxs.mapM (writeContextCalibrator u) = .ok xs ∧
+      cs = [mkEl u "ContextCalibratorList" [] xs] := by
+  unfold writeContextList at h
+  cases ctxs with
+  | nil => left; simp only [List.isEmpty_nil, if_true] at h; injection h with h; exact ⟨rfl, h.symm⟩
+  | cons a l =>
+    right
+    simp only [List.isEmpty_cons, Bool.false_eq_true, if_false] at h
+    cases hm : (a :: l).mapM (writeContextCalibrator u) with
+    | error e => simp [hm] at h
+    | ok xs => simp only [hm] at h; injection h with h; exact ⟨xs, by simp, rfl, h.symm⟩
+
+theorem default_calibrator_roundtrip (hI : IntRoundTrip) (hF : FloatRoundTrip) (u : Option String)
+    (dflt : Option Calibrator) (hwf : ∀ c, dflt = some c → CalWF c) (d : List XmlNode)
+    (hd : writeDefaultCal u dflt = .ok d) (tag : String) (attrs : List (String × String)) (cs xs : List XmlNode)
+    (hcs : cs = [] ∨ cs = [mkEl u "ContextCalibratorList" [] xs]) :
+    loadDefaultCalibrator u (mkEl u tag attrs (d ++ cs)) = .ok dflt := by
+  rcases writeDefaultCal_shape u dflt d hd with ⟨rfl, rfl⟩ | ⟨c, x, rfl, hx, rfl⟩
+  · rcases hcs with rfl | rfl <;>
+      simp [loadDefaultCalibrator, findFirst, findAll, mkEl, XmlNode.kids, Step.matches, step, XmlNode.isElem, XmlNode.tag]
+  · obtain ⟨a, k, hshape⟩ := writeCalibrator_shape u c x hx
+    have hc := hwf c rfl
+    cases c with
+    | spline sp =>
+      have hrt := spline_roundtrip hI hF u sp hc.1 hc.2 x hx
+      subst hshape
+      have hfs : findFirst u [step "DefaultCalibrator", step "SplineCalibrator"]
+          (mkEl u tag attrs ([mkEl u "DefaultCalibrator" [] [.elem u "SplineCalibrator" a none k]] ++ cs))
+          = some (.elem u "SplineCalibrator" a none k) := by
+        rcases hcs with rfl | rfl <;>
+          simp [findFirst, findAll, mkEl, XmlNode.kids, Step.matches, step, XmlNode.isElem, XmlNode.tag, XmlNode.ns]
+      simp only [loadDefaultCalibrator, hfs, hrt, bind, Except.bind, pure, Except.pure]
+    | poly ts =>
+      have hrt := polynomial_roundtrip hI hF u ts hc x hx
+      subst hshape
+      have hfs : findFirst u [step "DefaultCalibrator", step "SplineCalibrator"]
+          (mkEl u tag attrs ([mkEl u "DefaultCalibrator" [] [.elem u "PolynomialCalibrator" a none k]] ++ cs)) = none := by
+        rcases hcs with rfl | rfl <;>
+          simp [findFirst, findAll, mkEl, XmlNode.kids, Step.matches, step, XmlNode.isElem, XmlNode.tag, XmlNode.ns]
+      have hfp : findFirst u [step "DefaultCalibrator", step "PolynomialCalibrator"]
+          (mkEl u tag attrs ([mkEl u "DefaultCalibrator" [] [.elem u "PolynomialCalibrator" a none k]] ++ cs))
+          = some (.elem u "PolynomialCalibrator" a none k) := by
+        rcases hcs with rfl | rfl <;>
+          simp [findFirst, findAll, mkEl, XmlNode.kids, Step.matches, step, XmlNode.isElem, XmlNode.tag, XmlNode.ns]
+      simp only [loadDefaultCalibrator, hfs, hfp, hrt, bind, Except.bind, pure, Except.pure]
+
+theorem context_list_roundtrip (hI : IntRoundTrip) (hF : FloatRoundTrip) (u : Option String)
+    (ctxs : List ContextCalibrator)
+    (hwf : ∀ x ∈ ctxs, (∃ cmps, CmpCriteria x.criteria cmps) ∧ CalWF x.calibrator) (cs : List XmlNode)
+    (hcs : writeContextList u ctxs = .ok cs) (tag : String) (attrs : List (String × String)) (d : List XmlNode)
+    (x : XmlNode) (hd : d = [] ∨ d = [mkEl u "DefaultCalibrator" [] [x]]) :
+    loadContextCalibrators u (mkEl u tag attrs (d ++ cs)) = .ok (if ctxs.isEmpty then none else some ctxs) := by
+  rcases writeContextList_shape u ctxs cs hcs with ⟨rfl, rfl⟩ | ⟨xs, hne, hm, rfl⟩
+  · rcases hd with rfl | rfl <;>
+      simp [loadContextCalibrators, findFirst, findAll, mkEl, XmlNode.kids, Step.matches, step, XmlNode.isElem, XmlNode.tag]
+  · have hel := mapM_all (writeContextCalibrator u) (fun b => b.isElem = true) ctxs
+      (fun c hc b hb => by
+        obtain ⟨⟨cmps, h1⟩, h2⟩ := hwf c hc
+        exact (context_calibrator_roundtrip hI hF u c cmps h1 h2 b hb).2) xs hm
+    have hrt := mapM_roundtrip (writeContextCalibrator u) (loadContextCalibrator u) ctxs
+      (fun c hc b hb => by
+        obtain ⟨⟨cmps, h1⟩, h2⟩ := hwf c hc
+        exact (context_calibrator_roundtrip hI hF u c cmps h1 h2 b hb).1) xs hm
+    have he : (mkEl u "ContextCalibratorList" [] xs).elems = xs := by
+      simp only [mkEl, XmlNode.elems, XmlNode.kids]
+      rw [List.filter_eq_self]; exact hel
+    have hff : findFirst u [step "ContextCalibratorList"] (mkEl u tag attrs (d ++ [mkEl u "ContextCalibratorList" [] xs]))
+        = some (mkEl u "ContextCalibratorList" [] xs) := by
+      rcases hd with rfl | rfl <;>
+        simp [findFirst, findAll, mkEl, XmlNode.kids, Step.matches, step, XmlNode.isElem, XmlNode.tag, XmlNode.ns]
+    have hemp : ctxs.isEmpty = false := by cases ctxs <;> simp_all
+    simp only [loadContextCalibrators, hff, he, hrt, hemp, bind, Except.bind, pure, Except.pure, Bool.false_eq_true, if_false]
+
+theorem num_children_roundtrip (hI : IntRoundTrip) (hF : FloatRoundTrip) (u : Option String) (cals : Calibs)
+    (hwf : CalibsWF cals) (d cs : List XmlNode) (hd : writeDefaultCal u cals.default = .ok d)
+    (hc : writeContextList u cals.contexts = .ok cs) (tag : String) (attrs : List (String × String)) :
+    loadDefaultCalibrator u (mkEl u tag attrs (d ++ cs)) = .ok cals.default ∧
+    loadContextCalibrators u (mkEl u tag attrs (d ++ cs)) = .ok (if cals.contexts.isEmpty then none else some cals.contexts) := by
+  have hcs : cs = [] ∨ ∃ xs, cs = [mkEl u "ContextCalibratorList" [] xs] := by
+    rcases writeContextList_shape u _ cs hc with ⟨_, h⟩ | ⟨xs, _, _, h⟩
+    · exact Or.inl h
+    · exact Or.inr ⟨xs, h⟩
+  have hds : d = [] ∨ ∃ y, d = [mkEl u "DefaultCalibrator" [] [y]] := by
+    rcases writeDefaultCal_shape u _ d hd with ⟨_, h⟩ | ⟨_, y, _, _, h⟩
+    · exact Or.inl h
+    · exact Or.inr ⟨y, h⟩
+  constructor
+  · rcases hcs with h | ⟨xs, h⟩
+    · exact default_calibrator_roundtrip hI hF u _ hwf.1 d hd _ _ cs [] (Or.inl h)
+    · exact default_calibrator_roundtrip hI hF u _ hwf.1 d hd _ _ cs xs (Or.inr h)
+  · rcases hds with h | ⟨y, h⟩
+    · exact context_list_roundtrip hI hF u _ hwf.2 cs hc _ _ d (.comment "") (Or.inl h)
+    · exact context_list_roundtrip hI hF u _ hwf.2 cs hc _ _ d y (Or.inr h)
+
+/-- An integer encoding — size, signedness spelling, byte order, default and context calibrators — survives
+    write → load. -/
+theorem int_encoding_roundtrip (hI : IntRoundTrip) (hF : FloatRoundTrip) (u : Option String) (e : NumEnc)
+    (hf : e.isFloat = false) (hwf : CalibsWF e.cals) (x : XmlNode) (hw : writeEncoding u (.num e) = .ok x) :
+    loadIntEncoding u x = .ok (.num e) := by
+  simp only [writeEncoding, bind, Except.bind, pure, Except.pure] at hw
+  cases hd : writeDefaultCal u e.cals.default with
+  | error err => simp [hd] at hw
+  | ok d =>
+    cases hc : writeContextList u e.cals.contexts with
+    | error err => simp [hd, hc] at hw
+    | ok cs =>
+      simp only [hd, hc, hf, Bool.false_eq_true, if_false] at hw
+      injection hw with hw; subst hw
+      obtain ⟨hA, hB⟩ := num_children_roundtrip hI hF u e.cals hwf d cs hd hc "IntegerDataEncoding"
+        [("sizeInBits", toString e.size), ("encoding", e.encoding), ("byteOrder", e.byteOrder)]
+      simp only [loadIntEncoding, hA, hB, bind, Except.bind, pure, Except.pure]
+      simp only [mkEl, XmlNode.attr!, XmlNode.attr?, XmlNode.attrs, List.find?]
+      obtain ⟨isFloat, size, encoding, byteOrder, ⟨dflt, contexts⟩⟩ := e
+      simp only at hf
+      subst hf
+      have hsz' : readInt size.repr = .ok size := hI size
+      cases contexts <;> simp [hsz']
+
+/-- A float encoding (IEEE 16/32/64 or MIL-STD-1750A 32) with its calibrators survives write → load. -/
+theorem float_encoding_roundtrip (hI : IntRoundTrip) (hF : FloatRoundTrip) (u : Option String) (e : NumEnc)
+    (hf : e.isFloat = true) (hwf : CalibsWF e.cals)
+    (hvalid : (e.encoding = "MILSTD_1750A" ∧ e.size = 32) ∨
+              ((e.encoding = "IEEE754" ∨ e.encoding = "IEEE754_1985") ∧ (e.size = 16 ∨ e.size = 32 ∨ e.size = 64)))
+    (x : XmlNode) (hw : writeEncoding u (.num e) = .ok x) :
+    loadFloatEncoding u x = .ok (.num e) := by
+  simp only [writeEncoding, bind, Except.bind, pure, Except.pure] at hw
+  cases hd : writeDefaultCal u e.cals.default with
+  | error err => simp [hd] at hw
+  | ok d =>
+    cases hc : writeContextList u e.cals.contexts with
+    | error err => simp [hd, hc] at hw
+    | ok cs =>
+      simp only [hd, hc, hf, if_true] at hw
+      injection hw with hw; subst hw
+      obtain ⟨hA, hB⟩ := num_children_roundtrip hI hF u e.cals hwf d cs hd hc "FloatDataEncoding"
+        [("sizeInBits", toString e.size), ("encoding", e.encoding), ("byteOrder", e.byteOrder)]
+      simp only [loadFloatEncoding, hA, hB, bind, Except.bind, pure, Except.pure]
+      simp only [mkEl, XmlNode.attr!, XmlNode.attr?, XmlNode.attrs, List.find?]
+      obtain ⟨isFloat, size, encoding, byteOrder, ⟨dflt, contexts⟩⟩ := e
+      simp only at hf hvalid
+      subst hf
+      have hsz' : readInt size.repr = .ok size := hI size
+      rcases hvalid with ⟨rfl, rfl⟩ | ⟨rfl | rfl, rfl | rfl | rfl⟩ <;>
+        cases contexts <;> simp [hsz'] <;> decide
+
+/-! ### binary encodings -/
+
+/-- The three shapes of a binary encoding that the library's constructor is meant for. -/
+inductive BinWF : BinEnc → Prop
+  | fixed (n : Int) (hn : n ≠ 0) :
+      BinWF { fixedSize := some n, sizeRef := none, useCal := true, lookup := none, adjuster := none }
+  | dynamic (r : String) (hr : r ≠ "") (uc : Bool) (adj : Option LinAdj) :
+      BinWF { fixedSize := none, sizeRef := some r, useCal := uc, lookup := none, adjuster := adj }
+  | lookup (l : List DiscreteLookup) (hl : l ≠ [])
+      (hwf : ∀ d ∈ l, (∃ q, d.value = .flt (.fin q)) ∧ d.criteria ≠ [] ∧ ∀ c ∈ d.criteria, (lookupOp c.op).isSome = true) :
+      BinWF { fixedSize := none, sizeRef := none, useCal := true, lookup := some l, adjuster := none }
+
+theorem writeDiscreteLookup_isElem (u : Option String) (d : DiscreteLookup) (x : XmlNode)
+    (h : writeDiscreteLookup u d = .ok x) : x.isElem = true := by
+  simp only [writeDiscreteLookup, bind, Except.bind, pure, Except.pure] at h
+  cases hs : showNum d.value with
+  | error e => simp [hs] at h
+  | ok v => simp only [hs] at h; injection h with h; subst h; rfl
+
+/-- A binary encoding — fixed size, size taken from a parameter (with its raw/calibrated selector and its
+    linear adjustment), or size looked up from conditions — survives write → load. -/
+theorem binary_encoding_roundtrip (hI : IntRoundTrip) (hV : FValRoundTrip) (u : Option String) (e : BinEnc)
+    (hwf : BinWF e) (x : XmlNode) (hw : writeEncoding u (.bin e) = .ok x) :
+    loadBinaryEncoding u x = .ok (.bin e) := by
+  cases hwf with
+  | fixed n hn =>
+    have hn' : (n != 0) = true := by simpa using hn
+    simp only [writeEncoding, optTruthy, hn', if_true, pure, Except.pure, Option.getD] at hw
+    injection hw with hw; subst hw
+    have hff : findFirst u [step "SizeInBits", step "FixedValue"]
+        (mkEl u "BinaryDataEncoding" [] [mkEl u "SizeInBits" [] [mkEl u "FixedValue" [] [] (some (toString n))]])
+        = some (mkEl u "FixedValue" [] [] (some (toString n))) := by
+      simp [findFirst, findAll, mkEl, XmlNode.kids, Step.matches, step, XmlNode.isElem, XmlNode.tag, XmlNode.ns]
+    have hsz : readInt (toString n) = .ok n := hI n
+    simp only [loadBinaryEncoding, hff, bind, Except.bind, pure, Except.pure]
+    simp only [mkEl, XmlNode.text, readIntOpt, hsz]
+  | dynamic r hr uc adj =>
+    have hr' : r.isEmpty = false := by
+      cases hh : r.isEmpty
+      · rfl
+      · exact absurd (String.isEmpty_iff.mp hh) hr
+    simp only [writeEncoding, optTruthy, strTruthy, listTruthy, hr', Bool.not_false, Bool.false_eq_true, if_true, if_false,
+      bind, Except.bind, pure, Except.pure, Option.getD, List.append_nil] at hw
+    injection hw with hw; subst hw
+    cases adj with
+    | none =>
+      simp [loadBinaryEncoding, loadLinearAdjuster, writeParamInstanceRef, findFirst, findAll, mkEl, XmlNode.kids,
+        Step.matches, step, XmlNode.isElem, XmlNode.tag, XmlNode.ns, XmlNode.attr!, XmlNode.attr?, XmlNode.attrs,
+        isTrueWord_pyBool, bind, Except.bind, pure, Except.pure]
+    | some a =>
+      have h1 : readInt (toString a.slope) = .ok a.slope := hI a.slope
+      have h2 : readInt (toString a.intercept) = .ok a.intercept := hI a.intercept
+      simp [loadBinaryEncoding, loadLinearAdjuster, writeParamInstanceRef, writeLinAdj, showInt, findFirst, findAll, mkEl,
+        XmlNode.kids, Step.matches, step, XmlNode.isElem, XmlNode.tag, XmlNode.ns, XmlNode.attr!, XmlNode.attr?,
+        XmlNode.attrs, isTrueWord_pyBool, bind, Except.bind, pure, Except.pure]
+      have h1' : readInt a.slope.repr = .ok a.slope := h1
+      have h2' : readInt a.intercept.repr = .ok a.intercept := h2
+      simp [h1', h2']
+  | lookup l hl hwf =>
+    have hl' : l.isEmpty = false := by cases l <;> simp_all
+    simp only [writeEncoding, optTruthy, strTruthy, listTruthy, hl', Bool.not_false, Bool.false_eq_true, if_true, if_false,
+      bind, Except.bind, pure, Except.pure, Option.getD, List.nil_append] at hw
+    cases hm : l.mapM (writeDiscreteLookup u) with
+    | error err => simp [hm] at hw
+    | ok xs =>
+      simp only [hm] at hw
+      injection hw with hw; subst hw
+      have hel := mapM_all (writeDiscreteLookup u) (fun b => b.isElem = true) l
+        (fun d _ b hb => writeDiscreteLookup_isElem u d b hb) xs hm
+      have hrt := mapM_roundtrip (writeDiscreteLookup u) (loadDiscreteLookup u) l
+        (fun d hd b hb => by
+          obtain ⟨⟨q, hq⟩, hne, hop⟩ := hwf d hd
+          exact discrete_lookup_roundtrip hV u d q hq hne hop b hb) xs hm
+      have he : (mkEl u "DiscreteLookupList" [] xs).elems = xs := by
+        simp only [mkEl, XmlNode.elems, XmlNode.kids]
+        rw [List.filter_eq_self]; exact hel
+      have h1 : findFirst u [step "SizeInBits", step "FixedValue"]
+          (mkEl u "BinaryDataEncoding" [] [mkEl u "SizeInBits" [] [mkEl u "DiscreteLookupList" [] xs]]) = none := by
+        simp [findFirst, findAll, mkEl, XmlNode.kids, Step.matches, step, XmlNode.isElem, XmlNode.tag, XmlNode.ns]
+      have h2 : findFirst u [step "SizeInBits", step "DynamicValue"]
+          (mkEl u "BinaryDataEncoding" [] [mkEl u "SizeInBits" [] [mkEl u "DiscreteLookupList" [] xs]]) = none := by
+        simp [findFirst, findAll, mkEl, XmlNode.kids, Step.matches, step, XmlNode.isElem, XmlNode.tag, XmlNode.ns]
+      have h3 : findFirst u [step "SizeInBits", step "DiscreteLookupList"]
+          (mkEl u "BinaryDataEncoding" [] [mkEl u "SizeInBits" [] [mkEl u "DiscreteLookupList" [] xs]])
+          = some (mkEl u "DiscreteLookupList" [] xs) := by
+        simp [findFirst, findAll, mkEl, XmlNode.kids, Step.matches, step, XmlNode.isElem, XmlNode.tag, XmlNode.ns]
+      simp only [loadBinaryEncoding, h1, h2, h3, he, hrt, bind, Except.bind, pure, Except.pure]
+
 end Spp.C09
